@@ -2,7 +2,8 @@
    Only statements + `exact`; proofs in C16Proofs.v / C16ProofsMc.v / C16ProofsGain.v (and, for the
    shared free functions, C08ProofsBox.v), state model proofs in C16GradProofs / C16SmoProofs / C16SmoSimplexProofs /
    C16InitProofs / C16TablesProofs / C16DeactProofs / C16UnshrinkProofs / C16ShrinkProofs / C16SimplexShrinkProofs /
-   C16HistProofs, linear solvers in C16LinearProofs; executable models in C16Model.v (+ C08Model.v), C16State.v
+   C16HistProofs, linear solvers in C16LinearProofs, selection / loop in C16SelectProofs / C16SelectSimplexProofs /
+   C16SolveProofs / C16SolveSimplexProofs, bias book-keeping in C16BiasProofs; executable models in C16Model.v (+ C08Model.v), C16State.v
    and C16Linear.v.
 
    PROPERTY (properties.jsonl): for every multi-class formulation the trained decision function is,
@@ -79,23 +80,43 @@
        keeps 0 <= alpha <= bound and w = sum_i alpha_i y_i x_i (C16_boxlinear_epoch).
        NOT claimed: that the gradient kept inside solveSub is the true gradient (it is not for QpMcLinearATM when the
        label class takes part in a two-variable step - recorded in the evidence notes), nor the reported gain.
+     * WORKING-SET SELECTION AND SOLVER LOOP, model C16Select.v (selectWorkingSet of both classes, getSimplexMVP,
+       maxGainBox as repaired by c9be7fe4, maxGainSimplex, checkKKT, QpSolver::solve with fuel = maxIterations):
+       box class: the returned violation = checkKKT = largest documented violation over the active variables, first
+       variable attains it, second variable = i or the admissible candidate with the largest 2-D gain as coded (never
+       below the 1-D gain), both active, nothing selected at violation 0 (C16_box_select); checkKKT < eps <-> eps-KKT
+       (C16_box_kkt_is_eps_kkt); a positive violation admits a strictly gaining feasible step (C16_box_select_no_stall);
+       simplex class: returned violation = checkKKT, working set active (C16_simplex_select_partial - that the pair
+       maximises the gain among the candidates is only compared), checkKKT < eps => eps-KKT of the simplex dual
+       (C16_simplex_kkt_is_eps_kkt), maxGainBox returns gain 0 for a stuck first variable (C16_max_gain_box_stuck),
+       regression witness of the stall before c9be7fe4 on an invariant-satisfying state (C16_old_max_gain_box_stalls_refuted);
+       the whole loop: C16_solver_loop_box (invariant, monotone objective, exit accuracy => all active and checkKKT < eps),
+       C16_solver_loop_simplex (invariant, working sets active - shrink never removes everything after a failed accuracy
+       test -, exit accuracy => checkKKT < eps; no objective clause because of the snapping).
+       NOT proved for the simplex class: "a selected pair always admits a positive-gain step" (only the repaired return
+       value and the witness).
+     * BIAS SOLVERS, model C16Bias.v (performBiasUpdate as coded, label by data index): C16_bias_bookkeeping - over every
+       history of inner solver runs and offset steps the linear term equals initial - <nu(label,p), offsets> together
+       with the full solver invariant.  The Rprop loop is not modelled; no optimality claim (known finding C16-BIAS).
    NOT PROVED - the property's main clauses (configuration invariance, two-class reduction,
    kernel-vs-linear primal objective) would need convergence proofs of the decomposition solvers.
    They are MONITORED on every run by tools/c16.py on the real trainers (metamorphic runs with a
    tolerance derived from the measured duality gap) - see the evidence file.
-   NOT MODELLED: selectWorkingSet / maxGainBox / maxGainSimplex (the working set is an input of the step; the
-   repair c9be7fe4 lives there), BiasSolver's Rprop loop (its addDeltaLinear is modelled), the kernel cache.
+   NOT MODELLED: BiasSolver's Rprop step-size logic (its performBiasUpdate / addDeltaLinear are), the kernel cache, the
+   time limit of QpSolver.
    COMPARED on every run: the float instantiation of C16Model (free functions exactly; update steps
    one step at a time on the implementation's own previous state) and of C16State (constructor, updateSMO,
    shrink, unshrink, addDeltaLinear: the full positional state after each operation, bit for bit, from the
    implementation's own previous state) and of C16Linear (every example step of the eight linear multi-class solvers
    through their real virtual functions; QpBoxLinear::solve one epoch per call with the schedule re-derived from
-   the seed) vs. the compiled C++; table / kernel-permutation / book-keeping monitors. *)
+   the seed) and of C16Select / C16Bias (every selectWorkingSet and checkKKT call of the step-driven runs: violation and
+   working set; whole runs of the real QpSolver::solve against mc_solve_steps: final state, exit, iterations; the
+   real performBiasUpdate) vs. the compiled C++; table / kernel-permutation / selection / book-keeping monitors. *)
 From Coq Require Import QArith Qabs List.
 From SharkV Require Import C08Model C08Defs C08ProofsBox C16Model C16Proofs C16ProofsMc C16ProofsGain.
 From SharkV Require Import C16State C16StateDefs C16GradProofs C16SmoProofs C16SmoSimplexProofs C16InitProofs
   C16TablesProofs C16DeactProofs C16UnshrinkProofs C16ShrinkProofs C16SimplexShrinkProofs C16HistProofs C16WitnessProofs C16Linear C16LinearProofs
-  C16Select C16SelectProofs C16SelectSimplexProofs C16SolveProofs C16SolveSimplexProofs.
+  C16Select C16SelectProofs C16SelectSimplexProofs C16SolveProofs C16SolveSimplexProofs C16Bias C16BiasProofs.
 Import ListNotations.
 Open Scope Q_scope.
 
@@ -671,3 +692,31 @@ Theorem C16_solver_loop_simplex :
   (sr_exit r = XAccuracy -> actvar (sr_state r) = nv P n /\ skkt qops C (sr_state r) (actex (sr_state r)) < eps).
 Proof. exact mc_solve_simplex. Qed.
 Print Assumptions C16_solver_loop_simplex.
+
+(* BiasSolver / BiasSolverSimplex, book-keeping only: over EVERY history of inner solver runs (updateSMO / shrink /
+   unshrink on well-formed working sets) interleaved with performBiasUpdate calls, the solver invariant holds with
+   the linear term  linear(i,p) = initial(i,p) - sum over the entries of nu.row(label(i)|P| + p) of value * offset(index)
+   for the offsets accumulated so far, by data index.  No optimality claim (known finding C16-BIAS). *)
+Theorem C16_bias_bookkeeping :
+  forall (P ncl n : nat) (C : Q) (Mrow : nat -> list (nat * Q)) (Mdef : nat -> Q) (K0 : nat -> nat -> Q),
+  Mwf P Mrow -> Msym P ncl Mrow Mdef -> K0sym K0 -> Qdiag_nonneg P ncl Mrow Mdef K0 -> 0 < C ->
+  forall (nuRow : nat -> list (nat * Q)) (y0 : nat -> nat) (linit : nat -> nat -> Q) (b shrinking : bool)
+         (os : list (bop)) (st : qmst * (nat -> Q)),
+  Inv_all P ncl n C Mrow Mdef K0 y0 (lin_of P nuRow y0 linit (snd st)) b (fst st) ->
+  wf_brun P ncl n C Mrow Mdef K0 nuRow y0 b shrinking st os ->
+  let st' := brun P ncl n C Mrow Mdef K0 nuRow y0 b shrinking st os in
+  Inv_all P ncl n C Mrow Mdef K0 y0 (lin_of P nuRow y0 linit (snd st')) b (fst st') /\
+  forall v, (v < nv P n)%nat ->
+    mlin (fst st') v == linit (eorig (fst st') (vex (fst st') v)) (vp (fst st') v)
+                        - Lsum (nuRow (y0 (eorig (fst st') (vex (fst st') v)) * P + vp (fst st') v)%nat) (snd st').
+Proof.
+  intros P ncl n C Mrow Mdef K0 H1 H2 H3 H4 H5 nuRow y0 linit b shrinking os st IA W st'. split.
+  - exact (bias_history P ncl n C Mrow Mdef K0 H1 H2 H3 H4 H5 nuRow y0 linit b shrinking os st IA W).
+  - exact (bias_history_linear P ncl n C Mrow Mdef K0 H1 H2 H3 H4 H5 nuRow y0 linit b shrinking os st IA W).
+Qed.
+Print Assumptions C16_bias_bookkeeping.
+
+Example C16_bias_hyps_sat :
+  Inv_all 1 2 2 1 wMrow wMdef wK0 wy0 (lin_of 1 (fun _ => [(0%nat, 1)]) wy0 wlin0 (fun _ => 0)) false ws0 /\
+  wf_brun 1 2 2 1 wMrow wMdef wK0 (fun _ => [(0%nat, 1)]) wy0 false true (ws0, fun _ => 0) [BStep (fun _ => 1 # 4); BSolve [MSmo 0%nat 1%nat]].
+Proof. exact w_bias_hyps. Qed.
